@@ -98,6 +98,14 @@ class CancelOnShutdownExecutor(CanCustomizeBind, Executor):
         with self._shutdown.ensure_alive():
             with self._lock:
                 future = self._delegate.submit(*args, **kwargs)
+                if self._shutdown.is_shutdown:
+                    # shutdown() was called from within this submit (e.g. by the
+                    # callable, with a delegate running it synchronously; the
+                    # shutdown gate is re-entrant). Its sweep could not see this
+                    # future yet, so cover it now.
+                    if future.cancel():
+                        metrics.SHUTDOWN_CANCEL.labels(executor=self._name).inc()
+                    return future
                 self._futures.add(future)
                 future.add_done_callback(self._futures.discard)
             return future
